@@ -94,6 +94,10 @@ type sysRemote struct {
 	KeepWait      func(ctx context.Context, tag int, cb cbI) (int, error)         // keeps the callable and stays in flight until its gate opens
 	RelayCb       func(ctx context.Context, tag int, kept int) (int, error)       // invokes the callable kept under `kept` (another link's) with THIS request's context
 	EnumPanic     func(ctx context.Context, tag int) error                        // enumerates the remotes and panics inside the enumeration callback
+	GateFail      func(ctx context.Context, tag int, msg string) error            // waits for its gate, then returns an ordinary error
+	FailOwn       func(ctx context.Context, tag int, code int) error              // the handler's only result has an interface type of its own that embeds error
+	CallBackIter  func(ctx context.Context, tag int) (string, error)              // calls the peer back passing a function, returns what the peer's iteration yields
+	SpawnEcho     func(ctx context.Context, tag int) (int, error)                 // returns at once; afterwards calls the peer back with the context it was given
 	Groups        func(ctx context.Context, tag int, cb cbG) (string, error)      // a callable whose parameter is a list of lists; one inner list is nil
 	PanicGate     func(ctx context.Context, tag int) error                                          // waits for its gate, then panics with an error value of a slice type
 	Sub           struct {
@@ -470,6 +474,58 @@ func (l *sysLocal) Spawn(ctx context.Context, tag int) (int, error) {
 	}()
 	// return only once the spawned call is really in flight (its handler on the peer has started and is stalled)
 	waitUntil(func() bool { return hasInv(l.w, "Gate", tag+1) }, time.Second)
+	return tag, nil
+}
+func (l *sysLocal) GateFail(ctx context.Context, tag int, msg string) error {
+	l.inv(ctx, "GateFail", tag, msg)
+	select {
+	case <-l.w.gate(tag):
+	case <-time.After(20 * time.Second):
+	}
+	l.w.log(SysEvent{Node: l.node, Kind: "ret", Method: "GateFail", Tag: tag, Err: msg})
+	return errors.New(msg)
+}
+
+// OwnErr: an application's own error interface (embeds error); a handler may declare it as its only result
+type OwnErr interface {
+	error
+	Code() int
+}
+type ownErrImpl struct{ code int }
+
+func (e ownErrImpl) Error() string { return fmt.Sprintf("own error %d", e.code) }
+func (e ownErrImpl) Code() int     { return e.code }
+func (l *sysLocal) FailOwn(ctx context.Context, tag int, code int) OwnErr {
+	l.inv(ctx, "FailOwn", tag, code)
+	if code == 0 {
+		return nil
+	}
+	return ownErrImpl{code}
+}
+func (l *sysLocal) CallBackIter(ctx context.Context, tag int) (string, error) {
+	l.inv(ctx, "CallBackIter", tag, nil)
+	p, ok := l.peer(ctx)
+	if !ok {
+		return "", errors.New("no peer")
+	}
+	return p.Iter(ctx, tag+1, 2, func(ctx context.Context, i int, s string, xs []int, b bool) (string, error) {
+		return fmt.Sprintf("cb%d", i), nil
+	})
+}
+func (l *sysLocal) SpawnEcho(ctx context.Context, tag int) (int, error) {
+	l.inv(ctx, "SpawnEcho", tag, nil)
+	p, ok := l.peer(ctx)
+	if !ok {
+		return 0, errors.New("no peer")
+	}
+	returned := make(chan struct{})
+	go func() {
+		<-returned
+		time.Sleep(30 * time.Millisecond) // the handler has returned and its response has been written
+		v, err := p.EchoInt(ctx, tag+5000, 7)
+		l.w.log(SysEvent{Node: l.node, Kind: "ret", Method: "SpawnedEcho", Tag: tag + 5000, Data: fmt.Sprint(v), Err: errText(err)})
+	}()
+	defer close(returned)
 	return tag, nil
 }
 func (l *sysLocal) EchoAny(ctx context.Context, tag int, v any) (any, error) {
